@@ -5,7 +5,7 @@ TB = ("Lean 4.33 kernel + axioms propext/Classical.choice/Quot.sound (audited pe
       "Mathlib modules imported by RV/Proofs; ")
 CHECKS = {
  "C12": dict(
-   text="Proof (exact arithmetic, any field, every N and N_active, zero masses allowed) that each of the Jacobi, democratic-heliocentric, WHDS and barycentric transformations is inverted by its inverse and that slot 0 is (total active mass, centre of mass): 8 theorems in lean/RV/Props/C12.lean about lean/RV/Model/Transform.lean. The model is hand-written, per Cartesian component, in the operation order of transformations.c; the same definitions run on IEEE doubles (native driver drv_c12) and are compared with all 17 exported reb_particles_transform_* routines (pos/posvel/posvelacc/acc variants) on every run, bit for bit (alarm threshold 64*N ulp). A search asserts the property itself on the real code (round trip, COM by fsum).",
+   text="Proof (exact arithmetic, any field, every N and N_active, zero masses allowed) that each of the Jacobi, democratic-heliocentric, WHDS and barycentric transformations, and the in-place heliocentric maps of MERCURIUS/TRACE, is inverted by its inverse and that slot 0 is (total active mass, centre of mass): 11 theorems in lean/RV/Props/C12.lean about lean/RV/Model/Transform.lean; plus 6 theorems in lean/RV/Props/C12Frame.lean about the public frame changes of tools.c (move_to_hel: slot 0 at the origin, coordinates relative to particle 0, inverted by adding particle 0 back, idempotent; move_to_com: inverted by adding the centre of mass back, afterwards mass-weighted sum 0 and reb_simulation_com = origin; com = mass-weighted mean of all real particles). The model is hand-written, per Cartesian component, in the operation order of the C source; the same definitions run on IEEE doubles (native driver drv_c12) and are compared on every run, bit for bit (alarm threshold 64*N ulp), with all 17 exported reb_particles_transform_* routines (pos/posvel/posvelacc/acc variants), the MERCURIUS/TRACE maps and reb_simulation_com / move_to_hel / move_to_com (with variational particles behind the real ones). A search asserts the property itself on the real code (round trip, COM by fsum, variants agree); an LD_PRELOAD shim records the (N, N_active) split every integrator call site hands to a transformation and to its inverse (WHFast/SABA option lattice x test-particle, variational, dt<0 splits); an integrator-level frame-covariance test compares runs of a shifted+boosted twin. coverage.dimensions lists the evaluated cases per configuration dimension; a zero count is a broken obligation.",
    note=TB + "hand-written model tied by differential correspondence on generated inputs; IEEE rounding is outside the theorems (measured only).",
    technique="Lean 4 theorems over a field + Float-model/C bitwise correspondence",
    ref="DESIGN.md section 3 C12"),
